@@ -93,9 +93,11 @@ func RunCheckCases(ctx context.Context, cases []CheckCase, out *json.Encoder) er
 // PermOp is one operation attempted through the real handlers.
 type PermOp struct {
 	ID     string `json:"id"`
-	Kind   string `json:"kind"`   // gen att prop list lockacct unlockacct create lockwallet unlockwallet
+	Kind   string `json:"kind"`   // gen att prop list lockacct unlockacct create lockwallet unlockwallet restart
+	Pass   string `json:"pass"`   // passphrase sent with unlockacct / unlockwallet (default: the world's)
 	Client string `json:"client"` // "" = no authenticated identity
 	Wallet string `json:"wallet"`
+	WRaw   string `json:"wraw"`          // wallet operations: the wallet string actually sent when it differs from Wallet (e.g. "Wallet1/acc")
 	Acct   string `json:"acct"`          // account name inside Wallet
 	KeyOf  string `json:"keyof"`         // "wallet/account" whose public key is sent ("" = none)
 	NoName bool   `json:"noname"`        // do not send the account name (address by key only)
@@ -108,6 +110,35 @@ type PermScenario struct {
 	ID    string   `json:"id"`
 	World Spec     `json:"world"`
 	Ops   []PermOp `json:"ops"`
+}
+
+// lockState reports, per account path and per wallet name, whether it is UNLOCKED (read from the wallet objects directly).
+func lockState(ctx context.Context, b *Base) map[string]bool {
+	out := map[string]bool{}
+	for _, ws := range b.Spec.Wallets {
+		if accts, err := b.RawFetch.FetchAccounts(ctx, ws.Name); err == nil {
+			for n, a := range accts {
+				if l, ok := a.(e2wtypes.AccountLocker); ok {
+					u, _ := l.IsUnlocked(ctx)
+					out[n] = u
+				}
+			}
+		}
+		if w, err := b.RawFetch.FetchWallet(ctx, ws.Name); err == nil {
+			if l, ok := w.(e2wtypes.WalletLocker); ok {
+				u, _ := l.IsUnlocked(ctx)
+				out[ws.Name] = u
+			}
+		}
+	}
+	return out
+}
+
+func wraw(op PermOp) string {
+	if op.WRaw != "" {
+		return op.WRaw
+	}
+	return op.Wallet
 }
 
 func snapshot(ctx context.Context, st *Stack, b *Base) string {
@@ -151,6 +182,18 @@ func snapshot(ctx context.Context, st *Stack, b *Base) string {
 // stored state changed.
 func RunPermScenario(ctx context.Context, sc *PermScenario, log *Log) error {
 	ctl := NewControl(log)
+	needRestart := false
+	for _, op := range sc.Ops {
+		needRestart = needRestart || op.Kind == "restart"
+	}
+	if needRestart && sc.World.WalletDir == "" {
+		wd, err := os.MkdirTemp("", "permwallets")
+		if err != nil {
+			return err
+		}
+		defer os.RemoveAll(wd)
+		sc.World.WalletDir = wd
+	}
 	b, err := NewBase(ctx, sc.World, log, ctl)
 	if err != nil {
 		return err
@@ -177,7 +220,30 @@ func RunPermScenario(ctx context.Context, sc *PermScenario, log *Log) error {
 		return a.PublicKey().Marshal()
 	}
 	log.Emit(Ev{"ev": "Begin", "sc": sc.ID})
+	passOr := func(p string) []byte {
+		if p != "" {
+			return []byte(p)
+		}
+		return []byte(b.Spec.Passphrase)
+	}
 	for _, op := range sc.Ops {
+		if op.Kind == "restart" {
+			// a new process image on the same wallet store and the same slashing database
+			_ = st.Close(ctx)
+			st.cancel()
+			if b, err = NewBase(ctx, sc.World, log, ctl); err != nil {
+				return fmt.Errorf("restart: %w", err)
+			}
+			if proc, err = NewSoloProcess(ctx, b); err != nil {
+				return fmt.Errorf("restart: %w", err)
+			}
+			if st, err = NewStack(ctx, b, dir, proc); err != nil {
+				return fmt.Errorf("restart: %w", err)
+			}
+			log.Emit(Ev{"ev": "PermOp", "id": op.ID, "kind": "restart", "client": "", "wallet": "", "acct": "", "keyof": "", "served": true, "listed": []string{},
+				"servedfor": "", "changed": false, "detail": "", "pub": "", "locks": lockState(ctx, b)})
+			continue
+		}
 		c := credsCtx(WithRid(ctx, op.ID), op.Client, "")
 		path := op.Wallet + "/" + op.Acct
 		var pub []byte
@@ -289,26 +355,26 @@ func RunPermScenario(ctx context.Context, sc *PermScenario, log *Log) error {
 				served = err == nil && res.GetState() == pb.ResponseState_SUCCEEDED
 				detail = fmt.Sprint(res.GetState())
 			case "unlockacct":
-				res, err := st.AcctH.Unlock(c, roundTrip(&pb.UnlockAccountRequest{Account: path, Passphrase: []byte(b.Spec.Passphrase)}, &pb.UnlockAccountRequest{}))
+				res, err := st.AcctH.Unlock(c, roundTrip(&pb.UnlockAccountRequest{Account: path, Passphrase: passOr(op.Pass)}, &pb.UnlockAccountRequest{}))
 				served = err == nil && res.GetState() == pb.ResponseState_SUCCEEDED
 				detail = fmt.Sprint(res.GetState())
 			case "create":
-				res, err := st.AcctH.Generate(c, roundTrip(&pb.GenerateRequest{Account: path, Passphrase: []byte("pass"), Participants: 1, SigningThreshold: 1}, &pb.GenerateRequest{}))
+				res, err := st.AcctH.Generate(c, roundTrip(&pb.GenerateRequest{Account: path, Passphrase: passOr(op.Pass), Participants: 1, SigningThreshold: 1}, &pb.GenerateRequest{}))
 				served = err == nil && res.GetState() == pb.ResponseState_SUCCEEDED
 				detail = fmt.Sprint(res.GetState(), " ", res.GetMessage())
 			case "lockwallet":
-				res, err := st.WalletH.Lock(c, roundTrip(&pb.LockWalletRequest{Wallet: op.Wallet}, &pb.LockWalletRequest{}))
+				res, err := st.WalletH.Lock(c, roundTrip(&pb.LockWalletRequest{Wallet: wraw(op)}, &pb.LockWalletRequest{}))
 				served = err == nil && res.GetState() == pb.ResponseState_SUCCEEDED
 				detail = fmt.Sprint(res.GetState())
 			case "unlockwallet":
-				res, err := st.WalletH.Unlock(c, roundTrip(&pb.UnlockWalletRequest{Wallet: op.Wallet, Passphrase: []byte("pass")}, &pb.UnlockWalletRequest{}))
+				res, err := st.WalletH.Unlock(c, roundTrip(&pb.UnlockWalletRequest{Wallet: wraw(op), Passphrase: passOr(op.Pass)}, &pb.UnlockWalletRequest{}))
 				served = err == nil && res.GetState() == pb.ResponseState_SUCCEEDED
 				detail = fmt.Sprint(res.GetState())
 			}
 		}()
 		after := snapshot(ctx, st, b)
 		log.Emit(Ev{"ev": "PermOp", "id": op.ID, "kind": op.Kind, "client": op.Client, "wallet": op.Wallet, "acct": op.Acct, "keyof": op.KeyOf,
-			"served": served, "listed": listed, "servedfor": servedFor, "changed": before != after, "detail": detail, "pub": hex.EncodeToString(pub)})
+			"served": served, "listed": listed, "servedfor": servedFor, "changed": before != after, "detail": detail, "pub": hex.EncodeToString(pub), "locks": lockState(ctx, b)})
 	}
 	log.Emit(Ev{"ev": "End", "sc": sc.ID})
 	_ = st.Close(ctx)
